@@ -800,6 +800,69 @@ Section CacheProofs.
   Qed.
 End CacheProofs.
 
+(* ------------------------------------------------------------------ strip on the schema AST *)
+From Typify Require Import Spec.Schema.
+
+Lemma forallb_map_strip : forall l,
+  Forall (fun s => annotation_free (strip_annotations s) = true) l ->
+  forallb annotation_free (map strip_annotations l) = true.
+Proof. intros l H. induction H as [|x l Hx _ IH]; simpl; [reflexivity|]. rewrite Hx, IH. reflexivity. Qed.
+
+(* after stripping, no annotation is left at any position (every constructor, every subschema list /
+   option / property) *)
+Theorem strip_annotation_free : forall s, annotation_free (strip_annotations s) = true.
+Proof.
+  apply schema_ind'; [reflexivity|].
+  intros ty fmt enum cst nv sv ik items ai mni mxi uq props req ap mnp mxp allo anyo oneo no ref dflt title
+         Hitems Hai Hprops Hap Hallo Hanyo Honeo Hno.
+  cbn [strip_annotations annotation_free].
+  rewrite (forallb_map_strip items Hitems).
+  assert (Ep : forallb (fun kv => annotation_free (snd kv))
+                 (map (fun kv : ustring * schema => (fst kv, strip_annotations (snd kv))) props) = true).
+  { induction Hprops as [|kv l Hx _ IH]; simpl; [reflexivity|]. rewrite Hx, IH. reflexivity. }
+  rewrite Ep.
+  destruct ai as [x|]; simpl in Hai |- *; [rewrite Hai|];
+  destruct ap as [y|]; simpl in Hap |- *; try rewrite Hap;
+  destruct no as [z|]; simpl in Hno |- *; try rewrite Hno;
+  destruct allo as [l1|]; simpl in Hallo |- *; try rewrite (forallb_map_strip l1 Hallo);
+  destruct anyo as [l2|]; simpl in Hanyo |- *; try rewrite (forallb_map_strip l2 Hanyo);
+  destruct oneo as [l3|]; simpl in Honeo |- *; try rewrite (forallb_map_strip l3 Honeo);
+  reflexivity.
+Qed.
+
+Lemma map_strip_idem : forall l,
+  Forall (fun s => strip_annotations (strip_annotations s) = strip_annotations s) l ->
+  map strip_annotations (map strip_annotations l) = map strip_annotations l.
+Proof. intros l H. induction H as [|x l Hx _ IH]; simpl; [reflexivity|]. rewrite Hx, IH. reflexivity. Qed.
+
+Theorem strip_annotations_idem : forall s, strip_annotations (strip_annotations s) = strip_annotations s.
+Proof.
+  apply schema_ind'; [reflexivity|].
+  intros ty fmt enum cst nv sv ik items ai mni mxi uq props req ap mnp mxp allo anyo oneo no ref dflt title
+         Hitems Hai Hprops Hap Hallo Hanyo Honeo Hno.
+  cbn [strip_annotations]. rewrite (map_strip_idem items Hitems).
+  assert (Ep : map (fun kv : ustring * schema => (fst kv, strip_annotations (snd kv)))
+                 (map (fun kv : ustring * schema => (fst kv, strip_annotations (snd kv))) props) =
+               map (fun kv : ustring * schema => (fst kv, strip_annotations (snd kv))) props).
+  { induction Hprops as [|kv l Hx _ IH]; simpl; [reflexivity|]. rewrite Hx, IH. reflexivity. }
+  rewrite Ep.
+  destruct ai as [x|]; simpl in Hai |- *; [rewrite Hai|];
+  destruct ap as [y|]; simpl in Hap |- *; try rewrite Hap;
+  destruct no as [z|]; simpl in Hno |- *; try rewrite Hno;
+  destruct allo as [l1|]; simpl in Hallo |- *; try rewrite (map_strip_idem l1 Hallo);
+  destruct anyo as [l2|]; simpl in Hanyo |- *; try rewrite (map_strip_idem l2 Hanyo);
+  destruct oneo as [l3|]; simpl in Honeo |- *; try rewrite (map_strip_idem l3 Honeo);
+  reflexivity.
+Qed.
+
+(* the lookup with this strip: schemas that agree once every annotation at every position is
+   removed are not distinguished, whatever decides equality of stripped schemas *)
+Theorem conversion_lookup_ignores_annotations_everywhere :
+  forall (seqb : schema -> schema -> bool) c s s',
+    strip_annotations s = strip_annotations s' ->
+    cache_lookup schema strip_annotations seqb c s = cache_lookup schema strip_annotations seqb c s'.
+Proof. intros seqb c s s' E. apply cache_lookup_ignores_annotations. exact E. Qed.
+
 (* ------------------------------------------------------------------ former finding C14-F1 *)
 (* Before fix a0b7480 only the metadata of the searched schema itself was stripped.  Now
    [strip] removes it at every depth.  Concrete instance on a toy schema type (a node carries
